@@ -215,12 +215,14 @@ def st_dw_case(draw, tier="quick", versions=(6, 6, 6, 2, 3, 7, 8), maxdim=3, lmi
 
 
 @st.composite
-def st_es_case(draw, tier="quick", versions=(0, 1, 2), boundary_choices=(True, True, True, False), scales=False):
+def st_es_case(draw, tier="quick", versions=(0, 1, 2), boundary_choices=(True, True, True, False), scales=False, dim4=False):
     dim = draw(st.integers(2, 3))
+    if dim4 and draw(st.integers(0, 7)) == 0:
+        dim = 4         # few, short histories: code paths that differ only for d >= 4 (ties among >= 4 level entries)
     lmax = draw(st.integers(2, 4 if dim == 2 else 3))
     a, b = st_box(draw, dim)
     tape, mode = st_tape(draw)
-    hi = {2: 1500, 3: 1200}[dim]
+    hi = {2: 1500, 3: 1200, 4: 6000}[dim]
     if tier == "thorough":
         hi = int(hi * 1.6)
     boundary = draw(st.sampled_from(list(boundary_choices)))
@@ -237,6 +239,9 @@ def st_es_case(draw, tier="quick", versions=(0, 1, 2), boundary_choices=(True, T
                 fseed=draw(st.integers(0, 10 ** 6)),
                 legs=draw(st.one_of(st.none(), st.none(), st.lists(st.sampled_from([1, 1, 5, 20, 60]), min_size=1, max_size=6))),
                 rerun=draw(st.one_of(st.none(), st.none(), st.none(), st.sampled_from([[1, 2], [1, 3]]))))
+    if dim == 4:
+        c.update(lmax=draw(st.sampled_from([3, 3, 2])), maxsteps=draw(st.sampled_from([1, 2, 2, 3])), maxev=hi, legs=None, rerun=None,
+                 nref=draw(st.integers(0, 1)))
     return apply_boxscale(c, st_boxscale(draw, dim) if scales else None)
 
 
